@@ -214,3 +214,64 @@ Section Eval.
     apply eval_subst.
   Qed.
 End Eval.
+
+(* ---------- Expression::labels never panics ---------- *)
+Section Labels.
+  Variable macros : macro_env.
+
+  Lemma largs_no_panic : forall deeper args,
+    Forall (fun e => forall s, lb macros deeper e <> Panic s) args ->
+    forall s,
+      (fix largs (az : list expr) : res (list string) :=
+         match az with
+         | [] => Ok []
+         | a :: az' => do x <- lb macros deeper a ; do r <- largs az' ; Ok (x ++ r)
+         end) args <> Panic s.
+  Proof.
+    intros deeper args H. induction H as [|a az Ha Haz IH]; intros s; [discriminate|].
+    destruct (lb macros deeper a) as [x1|e1|s1] eqn:Ea; cbn [bind]; try discriminate.
+    - match goal with |- bind ?g _ <> _ => destruct g as [r|e2|s2] eqn:Eg end; cbn [bind]; try discriminate.
+      intros _. exact (IH s2 eq_refl).
+    - intros _. exact (Ha s1 eq_refl).
+  Qed.
+
+  Lemma lbin_no_panic : forall (r1 r2 : res (list string)) s,
+    (forall s, r1 <> Panic s) -> (forall s, r2 <> Panic s) ->
+    (do x <- r1 ; do y <- r2 ; Ok (x ++ y)) <> Panic s.
+  Proof.
+    intros r1 r2 s H1 H2. destruct r1 as [a|e|p]; cbn [bind]; try discriminate.
+    - destruct r2 as [b|e|p]; cbn [bind]; try discriminate. apply H2.
+    - apply H1.
+  Qed.
+
+  Lemma lb_no_panic : forall deeper,
+    (forall k, deeper = Some k -> forall e s, k e <> Panic s) ->
+    forall e s, lb macros deeper e <> Panic s.
+  Proof.
+    intros deeper Hd e.
+    induction e as [a IHa|n args IHargs|z|l|x|a b IHa IHb|a b IHa IHb|a b IHa IHb|a b IHa IHb] using expr_ind';
+      intros s; cbn [lb]; try discriminate; try apply IHa;
+      try (destruct (lb macros deeper a) as [x1|e1|s1] eqn:Ea; cbn [bind]; try discriminate;
+           [destruct (lb macros deeper b) as [x2|e2|s2] eqn:Eb; cbn [bind]; try discriminate;
+            intros _; exact (IHb s2 Eb)
+           |intros _; exact (IHa s1 Ea)]).
+    destruct (macros n) as [[d|]|]; try discriminate.
+    destruct deeper as [k|]; [|discriminate].
+    destruct (k (em_body d)) as [body|e1|s1] eqn:Ek; cbn [bind]; try discriminate.
+    - pose proof (largs_no_panic (Some k) args IHargs) as Hl.
+      match goal with |- bind ?g _ <> _ => destruct g as [r|e2|s2] eqn:Eg end; cbn [bind]; try discriminate.
+      intros _. exact (Hl s2 eq_refl).
+    - intros _. exact (Hd k eq_refl _ _ Ek).
+    - apply lbin_no_panic; assumption.
+    - apply lbin_no_panic; assumption.
+    - apply lbin_no_panic; assumption.
+    - apply lbin_no_panic; assumption.
+  Qed.
+
+  Theorem elabels_no_panic : forall f e s, elabels macros f e <> Panic s.
+  Proof.
+    induction f as [|f IH]; intros e s; cbn [elabels]; apply lb_no_panic.
+    - intros k Hk. discriminate.
+    - intros k Hk. inversion Hk; subst. exact IH.
+  Qed.
+End Labels.
